@@ -515,9 +515,9 @@ def oracle_bytes(res, sc, cfg, hev, producers_only=False):
         elif k in HCLOSE:
             if hstack[r]:
                 hstack[r].pop()
-        elif k == "k:fl+":
-            win[r] += 1
-        elif k == "k:fl-":
+        elif k in ("k:fl+", "k:bar+"):
+            win[r] += 1           # flush_all, and everything else inside barrier(): a barrier is a flush point as a whole
+        elif k in ("k:fl-", "k:bar-"):
             win[r] -= 1
         elif k == "k:lp+":
             # local_progress is a flush point only when the program called it (directly or through local_wait_until)
